@@ -1256,8 +1256,63 @@ def map_of(m, p):
     return v
 
 
+def key_fp(m, k):
+    """hashable fingerprint of a fully concrete key (equal fingerprints <=> keys_equal), else None"""
+    if isinstance(k, Ptr):
+        k = deref(m, k)
+    if isinstance(k, (StrRef, StrBuf)):
+        cs = tuple(k.chars)
+        for c in cs:
+            if not isinstance(c, int):
+                return None
+        return ("s", cs)
+    if isinstance(k, bool):
+        return int(k)
+    if isinstance(k, int):
+        return k
+    if isinstance(k, Agg):
+        parts = []
+        for x in k.f:
+            q = key_fp(m, x)
+            if q is None:
+                return None
+            parts.append(q)
+        return ("a", k.var, tuple(parts))
+    if isinstance(k, VecVal):
+        parts = []
+        for x in k.items:
+            q = key_fp(m, x)
+            if q is None:
+                return None
+            parts.append(q)
+        return ("v", tuple(parts))
+    return None
+
+
 def map_find(m, mp, key):
     """index of the entry equal to key or None (forks on symbolic equality)."""
+    fp = key_fp(m, key)
+    if fp is not None:
+        # concrete key: hash lookup among the concrete keys (a map never holds two equal keys, so an
+        # entry with a symbolic key cannot equal a key that is present concretely)
+        if mp.idx is None:
+            mp.idx, mp.idx_sym, mp.idx_n = {}, [], 0
+        if mp.idx_n > len(mp.entries):
+            mp.idx, mp.idx_sym, mp.idx_n = {}, [], 0
+        while mp.idx_n < len(mp.entries):
+            q = key_fp(m, mp.entries[mp.idx_n][0])
+            if q is None:
+                mp.idx_sym.append(mp.idx_n)
+            else:
+                mp.idx.setdefault(q, mp.idx_n)
+            mp.idx_n += 1
+        i = mp.idx.get(fp)
+        if i is not None:
+            return i
+        for i in mp.idx_sym:
+            if m.decide(keys_equal(m, mp.entries[i][0], key), "map-key-eq"):
+                return i
+        return None
     for i, (k, _v) in enumerate(mp.entries):
         if m.decide(keys_equal(m, k, key), "map-key-eq"):
             return i
@@ -1327,6 +1382,7 @@ def s_map_remove(m, st, info, args):
     i = map_find(m, mp, args[1])
     if i is None:
         return mk_none(m, tid)
+    mp.touched()
     return mk_some(m, tid, mp.entries.pop(i)[1])
 
 
@@ -1343,6 +1399,7 @@ def s_map_is_empty(m, st, info, args):
 @summary(r"std::collections::HashMap::<K, V, S, A>::clear", r"std::collections::HashSet::<T, S, A>::clear")
 def s_map_clear(m, st, info, args):
     map_of(m, args[0]).entries.clear()
+    map_of(m, args[0]).touched()
     return unit()
 
 
@@ -1368,6 +1425,7 @@ def s_set_remove(m, st, info, args):
     if i is None:
         return False
     mp.entries.pop(i)
+    mp.touched()
     return True
 
 
@@ -1399,6 +1457,7 @@ def s_map_into_iter(m, st, info, args):
         mp = map_of(m, v)
         ents = list(mp.entries)
         mp.entries = []
+        mp.touched()
     else:
         if isinstance(v, Agg) and v.f and isinstance(v.f[0], MapVal):
             v = v.f[0]
@@ -1687,6 +1746,25 @@ def s_from_utf8(m, st, info, args):
         else:
             raise Unsupported("String::from_utf8 over raw non-ASCII / symbolic bytes")
     return mk_ok(m, ret_ty(m, info), StrBuf(chars))
+
+
+def _ascii_case(c, upper):
+    lo, hi, d = (ord("a"), ord("z"), -32) if upper else (ord("A"), ord("Z"), 32)
+    if is_sym(c):
+        return simp(z3.If(z3.And(z3.UGE(c, lo), z3.ULE(c, hi)), c + z3.BitVecVal(d & 0xFFFFFFFF, c.size()), c))
+    return c + d if lo <= c <= hi else c
+
+
+@summary(r"core::str::<impl str>::to_ascii_uppercase", r"std::str::<impl str>::to_ascii_uppercase",
+         r"alloc::str::<impl str>::to_ascii_uppercase")
+def s_str_to_ascii_uppercase(m, st, info, args):
+    return StrBuf([_ascii_case(c, True) for c in as_str(m, args[0])])
+
+
+@summary(r"core::str::<impl str>::to_ascii_lowercase", r"std::str::<impl str>::to_ascii_lowercase",
+         r"alloc::str::<impl str>::to_ascii_lowercase")
+def s_str_to_ascii_lowercase(m, st, info, args):
+    return StrBuf([_ascii_case(c, False) for c in as_str(m, args[0])])
 
 
 @summary(r"core::str::<impl str>::repeat", r"std::str::<impl str>::repeat")
